@@ -23,7 +23,7 @@ public:
     Json generate(Rng rng, const std::string &tier) override {
         Rng w = rng.fork("workload"), s = rng.fork("schedule");
         Json p = Json::object();
-        GenOpts go; go.min_outs = 1; go.max_outs = 2; go.nested_only = true; go.max_depth = 3; go.max_points = tier == "thorough" ? 200 : 120;
+        GenOpts go; go.min_outs = 1; go.max_outs = 3; go.nested_only = true; go.max_depth = 3; go.max_points = tier == "thorough" ? 200 : 120;
         Json mk = genMake(w, go);
         // construction is driven without conformal maps (see tsg_common.hpp)
         Json mk2 = Json::object(); for (auto &kv : mk.o) if (kv.first != "conformal") mk2[kv.first] = kv.second;
@@ -43,11 +43,12 @@ public:
         int n = s.range(0, 14);
         for (int k = 0; k < n; k++) {
             Json e = Json::object();
-            std::string kind = s.pick<std::string>({"deliver", "deliver", "deliver", "deliver", "deliver", "cand", "cand", "cand", "writeread", "copy", "begin"});
+            std::string kind = s.pick<std::string>({"deliver", "deliver", "deliver", "deliver", "deliver", "cand", "cand", "cand", "writeread", "copy", "begin", "copysub"});
             e["k"] = kind;
             if (kind == "deliver") e["n"] = s.pick<int>({1, 1, 1, 2, 3, 5, 9});
             if (kind == "cand") { std::string ct = s.pick<std::string>({"iptotal", "level", "ipcurved", "iphyperbolic"}); e["type"] = ct; e["aniso"] = genAniso(s, d, ct, 1.0); e["tol"] = s.pick<double>({0.0, 1e-6, 1e-3}); e["criteria"] = s.pick<std::string>({"classic", "parents", "direction", "fds", "stable"}); e["by_output"] = s.chance(0.3); }
             if (kind == "writeread") e["binary"] = s.chance(0.5);
+            if (kind == "copysub") { e["lo"] = s.range(0, 2); e["len"] = s.range(0, 2); }
             ev.push(e);
         }
         p["events"] = ev;
@@ -70,7 +71,8 @@ public:
         Outcome out;
         const Json &mk = p.at("make");
         TasmanianSparseGrid g; doMake(g, mk);
-        int d = g.getNumDimensions(), outs = g.getNumOutputs();
+        int d = g.getNumDimensions(), outs = g.getNumOutputs(), out_offset = 0; // a copy of an output sub-range (event "copysub") shifts the outputs
+        auto modelVals = [&](const std::vector<double> &pts) { size_t n = pts.size() / (size_t)d; std::vector<double> v(n * (size_t)outs); for (size_t i = 0; i < n; i++) for (int o = 0; o < outs; o++) v[i * (size_t)outs + (size_t)o] = modelValue(&pts[i * (size_t)d], d, o + out_offset); return v; };
         std::string fam = familyName(g), rule = TasGrid::IO::getRuleString(g.getRule());
         std::string ordcls = g.isLocalPolynomial() ? ("order" + std::to_string(g.getOrder())) : g.isWavelet() ? ("order" + std::to_string(g.getOrder())) : "na";
         std::string base = "C09/" + fam + "/" + rule + "/" + ordcls + "/";
@@ -88,7 +90,7 @@ public:
         for (size_t i = 0; i + d <= target.size(); i += d) tset[Key{std::vector<double>(target.begin() + i, target.begin() + i + d)}] = 0;
         bool startLoaded = p.gets("start", "fresh") == "loaded";
         if (startLoaded) {
-            std::vector<double> np = g.getNeededPoints(), nv = modelValues(np, d, outs);
+            std::vector<double> np = g.getNeededPoints(), nv = modelVals(np);
             g.loadNeededValues(nv);
             for (size_t i = 0; i < np.size() / d; i++) { Key k{std::vector<double>(np.begin() + i * d, np.begin() + (i + 1) * d)}; delivered[k] = std::vector<double>(nv.begin() + i * outs, nv.begin() + (i + 1) * outs); tset[k] = 1; }
         }
@@ -137,7 +139,7 @@ public:
             if (n == 0) return true;
             std::vector<double> px, py;
             for (size_t i = 0; i < n; i++) { auto &x = samples[next + i]; px.insert(px.end(), x.begin(), x.end()); }
-            py = modelValues(px, d, outs);
+            py = modelVals(px);
             for (size_t i = 0; i < n; i++) { Key k{samples[next + i]}; delivered[k] = std::vector<double>(py.begin() + i * outs, py.begin() + (i + 1) * outs); }
             next += n;
             if (n == 1) { usedSingle = true; st.inc("deliver.single"); } else { usedBatch = true; st.inc("deliver.batch"); }
@@ -164,6 +166,15 @@ public:
                 try { r.read(is, bin); } catch (std::exception &ex) { out.fail("read-exception", base + "read-exception", ex.what()); return out; }
                 g = std::move(r); st.inc("fault.checkpoint_restore_interleaved");
                 if (!checkInvariants("after write/read of the half-built grid")) return out;
+            } else if (k == "copysub") { // continue the construction on a copy that keeps an output sub-range (the way a driver splits a multi-output surrogate)
+                if ((g.isSequence() || g.isLocalPolynomial() || g.isWavelet()) && outs >= 2) {
+                    int lo = (int)(e.geti("lo", 1) % outs), hi = lo + 1 + (int)(e.geti("len", 0) % (outs - lo));
+                    TasmanianSparseGrid c1; c1.copyGrid(g, lo, hi); g = std::move(c1);
+                    TasmanianSparseGrid c2; c2.copyGrid(twin, lo, hi); twin = std::move(c2);
+                    for (auto &kv : delivered) kv.second = std::vector<double>(kv.second.begin() + lo, kv.second.begin() + hi);
+                    out_offset += lo; outs = hi - lo; st.inc("fault.copy_of_output_subrange_interleaved");
+                    if (!checkInvariants("after copying an output sub-range of the half-built grid")) return out;
+                }
             } else if (k == "begin") { // a driver that calls beginConstruction() defensively in every work cycle: no effect while construction is active
                 g.beginConstruction(); st.inc("fault.redundant_beginConstruction");
                 if (!checkInvariants("after a redundant beginConstruction()")) return out;
@@ -179,7 +190,7 @@ public:
         {
             std::vector<double> px, py;
             for (auto &x : samples) px.insert(px.end(), x.begin(), x.end());
-            py = modelValues(px, d, outs);
+            py = modelVals(px);
             if (!px.empty()) twin.loadConstructedPoints(px, py);
         }
         std::string path = usedSingle && !usedBatch ? "single" : usedBatch && !usedSingle ? "batch" : "mixed";
